@@ -52,12 +52,10 @@ static inline uint64_t fnv1a(const void *p, size_t n, uint64_t h = 1469598103934
 
 static inline bool tape_load(const char *path, std::vector<uint32_t> &out) {
   FILE *f = fopen(path, "r"); if (!f) return false;
-  char line[256]; out.clear();
-  while (fgets(line, sizeof line, f)) {
-    if (line[0] == '#' || line[0] == '\n') continue;
-    out.push_back((uint32_t)strtoul(line, nullptr, 10));
-  }
-  fclose(f); return true;
+  out.clear(); int c; std::string line;
+  auto flush = [&]() { if (!line.empty() && line[0] != '#') { const char *p = line.c_str(); while (*p == ' ') p++; if (*p >= '0' && *p <= '9') out.push_back((uint32_t)strtoul(p, nullptr, 10)); } line.clear(); };
+  while ((c = fgetc(f)) != EOF) { if (c == '\n') flush(); else line.push_back((char)c); }
+  flush(); fclose(f); return true;
 }
 static inline bool tape_save(const char *path, const std::vector<uint32_t> &w, const char *hdr = nullptr) {
   FILE *f = fopen(path, "w"); if (!f) return false;
